@@ -11,6 +11,9 @@
                                         (value level: which JSON text is stored for an argument)
      v2/pkg/engine/resolve/inputtemplate.go renderContextVariable + SetInputUndefinedVariables and
      graphql_datasource.go compactAndUnNullVariables/cleanupVariables (value level).
+   State of the Go code: with the repairs c15_fix_raw-control-char, c15_fix_default-null-list-wrapped,
+   c15_fix_block-blank-only and c15_fix_block-escaped-triple-quote applied (the functions they replaced
+   are kept in History.v).
    Literals are lib/Gql.v [value]s: strings carry the RAW bytes between the delimiters (for block
    strings: everything between the opening and the closing triple quote), numbers the raw token
    including a leading '-'.  No proofs here. *)
@@ -170,12 +173,33 @@ Fixpoint join_lines (lines : list bytes) : bytes :=
 
 Definition block_lines_value (raw' : bytes) : bytes :=
   let lines := remove_indent (split_lines raw' []) in
-  let first := match first_nonblank lines 0 with Some i => i | None => O end in
-  let last := match last_nonblank lines 0 None with Some i => i | None => Nat.pred (length lines) end in
-  join_lines (firstn (S last - first) (skipn first lines)).
+  match first_nonblank lines 0 with
+  | None => []                       (* firstLine == -1: only white space, every line is removed *)
+  | Some first =>
+    let last := match last_nonblank lines 0 None with Some i => i | None => Nat.pred (length lines) end in
+    join_lines (firstn (S last - first) (skipn first lines))
+  end.
+
+(* bytes.ReplaceAll(raw, BACKSLASH-TRIPLEQUOTE, TRIPLEQUOTE): leftmost non-overlapping occurrences;
+   [skip] = bytes of the current occurrence still to be copied *)
+Definition starts_bs_triple (s : bytes) : bool :=
+  match s with
+  | a :: b :: c :: d :: _ => (a =? 92) && (b =? 34) && (c =? 34) && (d =? 34)
+  | _ => false
+  end.
+Fixpoint replace_esc_triple (skip : nat) (s : bytes) : bytes :=
+  match s with
+  | [] => []
+  | b :: r =>
+    match skip with
+    | S k => b :: replace_esc_triple k r
+    | O => if starts_bs_triple s then replace_esc_triple 3 r else b :: replace_esc_triple O r
+    end
+  end.
 
 (* BlockStringValueContentBytes *)
-Definition block_string_value (raw : bytes) : bytes := block_lines_value (block_rescan raw).
+Definition block_string_value (raw : bytes) : bytes :=
+  block_lines_value (replace_esc_triple O (block_rescan raw)).
 
 (* ------------------------------------------------------------------ writeJSONValue *)
 Definition vars := list (name * bytes).   (* variable name -> raw JSON text of its value (as jsonparser.Get
@@ -184,6 +208,15 @@ Fixpoint var_get (n : name) (vs : vars) : option bytes :=
   match vs with
   | [] => None
   | (k, v) :: r => if bytes_eqb n k then Some v else var_get n r
+  end.
+
+(* quoted string content: bytes below 0x20 are written as backslash u 0 0 h h (fmt %04x), the rest verbatim *)
+Fixpoint escape_ctl (s : bytes) : bytes :=
+  match s with
+  | [] => []
+  | b :: r =>
+    if b <? 32 then [92; 117; 48; 48; hexdigit (b / 16); hexdigit (b mod 16)] ++ escape_ctl r
+    else b :: escape_ctl r
   end.
 
 Definition lit_null : bytes := [110; 117; 108; 108].
@@ -212,7 +245,7 @@ Fixpoint value_to_json (vs : vars) (v : value) : bytes :=
   | VInt raw => raw          (* '-' (when Negative) followed by IntValueRaw *)
   | VFloat raw => raw
   | VBool b => if b then lit_true else lit_false
-  | VStr raw false => wrap_quotes raw
+  | VStr raw false => wrap_quotes (escape_ctl raw)
   | VStr raw true => json_encode_string (block_string_value raw)
   | VList items =>
     91 :: join_comma ((fix go (l : list value) : list bytes :=
@@ -238,17 +271,19 @@ Definition extract_arg (vs : vars) (v : value) : option bytes :=
   end.
 
 (* variables_default_value_extraction.go EnterVariableDefinition: only when the variable is not
-   supplied; a list-typed variable whose default text does not start with '[' is wrapped once per
-   list level. *)
+   supplied; a list-typed variable whose default is not null and whose text does not start with '['
+   is wrapped once per list level. *)
 Fixpoint wrap_lists (n : nat) (b : bytes) : bytes :=
   match n with O => b | S k => wrap_lists k (91 :: b ++ [93]) end.
+Definition is_null_value (v : value) : bool := match v with VNull => true | _ => false end.
 Definition default_extract (vs : vars) (vname : name) (list_wraps : nat) (default : value) : option bytes :=
   match var_get vname vs with
   | Some _ => None
   | None =>
     let b := value_to_json vs default in
     match b with
-    | c :: _ => if Nat.ltb 0 list_wraps && negb (c =? 91) then Some (wrap_lists list_wraps b) else Some b
+    | c :: _ =>
+      if Nat.ltb 0 list_wraps && negb (is_null_value default) && negb (c =? 91) then Some (wrap_lists list_wraps b) else Some b
     | [] => Some b
     end
   end.
